@@ -98,7 +98,7 @@ func (b *sctpBackend) Close() error {
 	b.mu.Unlock()
 	return nil
 }
-func (b *sctpBackend) isClosed() bool { b.mu.Lock(); defer b.mu.Unlock(); return b.closed }
+func (b *sctpBackend) isClosed() bool       { b.mu.Lock(); defer b.mu.Unlock(); return b.closed }
 func (b *sctpBackend) LocalAddr() net.Addr  { return memAddr{"sctp", "10.1.2.3/10.1.2.4:3868"} }
 func (b *sctpBackend) RemoteAddr() net.Addr { return memAddr{"sctp", "10.9.9.9:49152"} }
 
@@ -246,7 +246,7 @@ func execSctpServe(toks []string) string {
 
 type dbgHandler struct{ diam.HandlerFunc }
 
-func (d dbgHandler) Error(er *diam.ErrorReport)              { fmt.Fprintln(os.Stderr, "ERROR REPORT:", er.Error) }
+func (d dbgHandler) Error(er *diam.ErrorReport)             { fmt.Fprintln(os.Stderr, "ERROR REPORT:", er.Error) }
 func (d dbgHandler) ErrorReports() <-chan *diam.ErrorReport { return nil }
 
 // ---- generators
